@@ -127,6 +127,9 @@ func main() {
 			}
 		}
 	}
+	if err := v.ApplyPendingExtends(); err != nil {
+		engineFail(*out, cfg.Property, fmt.Sprintf("contract file: %v", err))
+	}
 	// known findings
 	var kfs []KnownFinding
 	if *known != "" {
